@@ -144,3 +144,13 @@ def known_match(entry, case, obs, code):
     # F5: crop(..., return_data=False) raises IndexError when no frame is kept
     return entry.get("id") == "F5" and case.get("k") == "cropwin" and isinstance(obs, dict) \
         and obs.get("obs") is None and obs.get("nrows") == 0
+
+
+def shrink(case):
+    if case["k"] == "crop" and case["focus"][0] == "tl":
+        for s in gen.shrink_segs(case["focus"][1]):
+            yield {**case, "focus": ["tl", s]}
+    if case["k"] == "crop" and case.get("fixed") is not None and case["fixed"] > 0:
+        yield {**case, "fixed": case["fixed"] - 1}
+    if case["n"] > 1:
+        yield {**case, "n": case["n"] - 1}
